@@ -26,6 +26,12 @@ def _member_schema_of(lst, root, schema):
     return None
 
 
+def _signed(m, n):
+    """An in-range index, negative (counted from the end) when the mutation says so."""
+    i = m["i"] % n
+    return i - n if m.get("neg") else i
+
+
 def apply_mutations(root, schema, kinds, muts):
     """Apply list mutations; each names its target as an index into the current BFS list of Lists."""
     applied = []
@@ -39,15 +45,15 @@ def apply_mutations(root, schema, kinds, muts):
         val = lambda j: fl.decode_native(j)
         try:
             if op == "insert":
-                lst.insert(m["i"] % (n + 1), val(m["v"]))
+                lst.insert(_signed(m, n + 1) if n else 0, val(m["v"]))
             elif op == "append":
                 lst.append(val(m["v"]))
             elif op == "pop":
                 if n:
-                    lst.pop(m["i"] % n)
+                    lst.pop(_signed(m, n))
             elif op == "del":
                 if n:
-                    del lst[m["i"] % n]
+                    del lst[_signed(m, n)]
             elif op == "delslice":
                 a, b = sorted((m["i"] % (n + 1), m["j"] % (n + 1)))
                 del lst[a:b]
@@ -66,7 +72,7 @@ def apply_mutations(root, schema, kinds, muts):
                 lst[sl] = vs
             elif op == "setitem":
                 if n:
-                    lst[m["i"] % n] = val(m["v"])
+                    lst[_signed(m, n)] = val(m["v"])
             elif op == "extend":
                 lst.extend([val(v) for v in m["vs"]])
             elif op == "iadd":
@@ -164,7 +170,8 @@ class C07(Property):
                      {"target": 0, "op": "pop", "i": 0}, {"target": 0, "op": "sort"}]}
         stepped = dict(renumber, muts=[{"target": 0, "op": "delslice3", "sl": [None, None, 2]},
                                        {"target": 0, "op": "append", "v": {"s": "z"}}])
-        return [joined_in_dict, renumber, stepped]
+        negpop = dict(renumber, muts=[{"target": 0, "op": "pop", "i": 1, "neg": True}])
+        return [joined_in_dict, renumber, stepped, negpop]
 
     def generate(self, rng, n, tier):
         for _ in range(n):
@@ -183,7 +190,7 @@ class C07(Property):
                 sl = [rng.choice([None, None, 0, 1, 2, -1, -2, 5]), rng.choice([None, None, 0, 1, 2, 3, -1, 9]),
                       rng.choice([None, None, 1, 2, -1, -2, 3])]
                 m = {"target": rng.randint(0, 5), "op": op, "i": rng.randint(0, 6), "j": rng.randint(0, 6),
-                     "rev": rng.random() < 0.5, "sl": sl}
+                     "rev": rng.random() < 0.5, "sl": sl, "neg": rng.random() < 0.4}
                 lists = [s for s in fl.walk_schema(schema) if s["t"] == "list"]
                 if lists:
                     ms = rng.choice(lists)["member"]
